@@ -24,8 +24,11 @@ POINTS = "checkpoints.,initial.,rewrite_log.,notes_add"
 
 
 class Ctl:
-    def __init__(self, name):
-        self.w = World(name=name, mode="wrapper")
+    def __init__(self, name, shim=False):
+        # shim: git-ai's internal git calls go through the recording stand-in, which doubles as a sync point BETWEEN two internal git
+        # processes (GITSHIM_SYNC_*): windows that lie between two git spawns have no line of git-ai code to put a sync point on
+        self.w = World(name=name, mode="wrapper", shim=shim)
+        self.shim = shim
         w = self.w
         for f in ("a.txt", "b.txt", "c.txt"):
             w.write_bytes(f, b"one\ntwo\nthree\n")
@@ -37,6 +40,8 @@ class Ctl:
 
     def env(self, **extra):
         e = self.w.env(dict(GIT_AI_VERIF_SYNC_DIR=self.sync, GIT_AI_VERIF_SYNC_POINTS=POINTS + getattr(self, "more_points", "")))
+        if self.shim:
+            e.update(GITSHIM_SYNC_DIR=self.sync, GITSHIM_SYNC_MATCH=getattr(self, "shim_points", "notes,update-ref,show-ref,merge-base"))
         e.update(extra)
         return e
 
@@ -183,7 +188,7 @@ def report_straddles_git_command(seq, is_git):
 
 def scenario(kind, choices, serial=None):
     """Run one operation pair under a schedule (or serially in the given order, no sync points) and return its observable outcome."""
-    c = Ctl("C11")
+    c = Ctl("C11", shim=(kind == "fetch-commit-wt"))
     w = c.w
     viol = []
     try:
@@ -285,6 +290,28 @@ def scenario(kind, choices, serial=None):
             cmds = [(["cherry-pick", "srcA"], repo, True), (["cherry-pick", "srcB"], wt, True)]
             c.more_points = ",rwscan."       # also park before every scan of the rewrite log (the post-hook looks its own Start event up there)
             probes = [(repo, "a.txt", "ai line of S1"), (wt, "b.txt", "ai line of S2")]
+        elif kind == "fetch-commit-wt":
+            # `git fetch` in the main work tree brings in notes another clone pushed (the local notes ref is strictly behind the remote's)
+            # while `git commit` in a linked work tree writes the note of its new commit: both update refs/notes/ai. The sync points are
+            # git-ai's internal git calls themselves (git stand-in), so the windows between two of them can be entered.
+            origin = os.path.join(w.root, "origin.git")
+            w.ogit("init", "-q", "--bare", "-b", "main", origin, cwd=w.root)
+            w.git("remote", "add", "origin", origin, plain=True)
+            w.human_ckpt(["a.txt"]); w.write_bytes("a.txt", b"one\ntwo\nthree\nai line of S1\n"); w.ai_ckpt("S1", ["a.txt"])
+            w.git("add", "-A"); w.git("commit", "-q", "-m", "c1 (agent)")
+            w.git("push", "-q", "origin", "main")
+            other = os.path.join(w.root, "otherclone")
+            w.git("clone", "-q", origin, other, cwd=w.root)
+            w.human_ckpt(["c.txt"], cwd=other); w.write_bytes("c.txt", b"one\ntwo\nthree\nai line of S3\n", other); w.ai_ckpt("S3", ["c.txt"], cwd=other)
+            w.git("add", "-A", cwd=other); w.git("commit", "-q", "-m", "c2 (agent, other clone)", cwd=other)
+            w.git("push", "-q", "origin", "main", cwd=other)
+            c.remote_commit = w.ogit("rev-parse", "HEAD", cwd=other).strip()
+            wt = os.path.join(w.root, "wt2")
+            w.git("worktree", "add", "-q", "-b", "other", wt, plain=True)
+            w.human_ckpt(["b.txt"], cwd=wt); w.write_bytes("b.txt", b"one\ntwo\nthree\nai line of S2\n", wt); w.ai_ckpt("S2", ["b.txt"], cwd=wt)
+            w.git("add", "-A", cwd=wt)
+            cmds = [(["fetch", "-q", "origin"], repo, True), (["commit", "-q", "-m", "c-other"], wt, True)]
+            probes = [(repo, "a.txt", "ai line of S1"), (wt, "b.txt", "ai line of S2")]
         if serial is not None:
             seq, opts = [("serial", list(serial))], []
             for i in serial:
@@ -357,6 +384,9 @@ def scenario(kind, choices, serial=None):
             except (ValueError, KeyError):
                 pass
             outcome["%s:%s" % (os.path.basename(path), text)] = who
+        if getattr(c, "remote_commit", None):
+            # the note the other clone wrote for its commit arrived (and stayed)
+            outcome["note of the fetched commit"] = "present" if c.remote_commit in N.NotesReader(w, repo=repo).mapping() else "absent"
         return dict(viol=viol, seq=seq, opts=opts, inconclusive=None, outcome=outcome, stale=stale, domains=[cwd for _, cwd, _ in cmds], is_git=[g for _, _, g in cmds])
     finally:
         c.destroy()
@@ -458,7 +488,7 @@ def main(tier, seed, replay=None):
         rep.add_results([run_case(case)])
         return rep.finish(min_nontrivial=0)
     witnesses.replay_for(rep, "C11")
-    kinds = ["ckpt-ckpt-diff", "ckpt-ckpt-same", "ckpt-commit", "ckpt-commit-leftover", "commit-commit-wt", "ckpt-stash", "ckpt-amend", "ckpt-reset", "commit-ckpt-wt", "cherry-cherry-wt"] + (["commit-rebase-wt"] if tier == "thorough" else [])
+    kinds = ["ckpt-ckpt-diff", "ckpt-ckpt-same", "ckpt-commit", "ckpt-commit-leftover", "commit-commit-wt", "ckpt-stash", "ckpt-amend", "ckpt-reset", "commit-ckpt-wt", "cherry-cherry-wt", "fetch-commit-wt"] + (["commit-rebase-wt"] if tier == "thorough" else [])
     if os.environ.get("VERIF_C11_KINDS"):
         kinds = os.environ["VERIF_C11_KINDS"].split(",")
     limit = 6 if tier == "quick" else 600
